@@ -1,7 +1,7 @@
 (* Model of proc_gen/expr.rs: Expression::to_proc_gen_rec (value text, hoisted `var $x=..`
    statements, path analysis), the update guard text (to_path_analysis_str) and l-value
    paths (is_legal_lvalue_path / to_lvalue_path_arr). Exact text. *)
-From GE Require Export Model.Str Model.Lit Model.Hex Model.Escape Model.VarName Model.Expr.
+From GE Require Export Model.Str Model.Lit Model.Hex Model.Escape Model.VarName Model.Expr Model.JsAst.
 
 (* ---------- expression levels (stringify::expr::ExpressionLevel) ---------- *)
 Definition L_Lit := 0. Definition L_Member := 1. Definition L_Unary := 2. Definition L_Multiply := 3.
@@ -285,21 +285,23 @@ End PathStr.
 (* ---------- generation state ---------- *)
 (* `hoists` is ghost information (it never reaches the emitted text): which expression each hoisted
    private variable was assigned; the soundness theorems of the path analysis use it *)
-Record gst := { next_priv : N; stmts : list str; hoists : list (str * expr) }.
-Definition mk_gst (n : N) : gst := {| next_priv := n; stmts := []; hoists := [] |}.
+Record gst := { next_priv : N; stmts : list str; hoists : list (str * expr); hoists_js : list (str * jx) }.
+Definition mk_gst (n : N) : gst := {| next_priv := n; stmts := []; hoists := []; hoists_js := [] |}.
 Definition emit_stmt (st : gst) (s : str) : gst :=
-  {| next_priv := next_priv st; stmts := stmts st ++ [s]; hoists := hoists st |}.
-Definition emit_hoist (st : gst) (ident : str) (e : expr) (text : str) : gst :=
+  {| next_priv := next_priv st; stmts := stmts st ++ [s]; hoists := hoists st; hoists_js := hoists_js st |}.
+Definition emit_hoist (st : gst) (ident : str) (e : expr) (text : str) (j : jx) : gst :=
   {| next_priv := next_priv st; stmts := stmts st ++ [lit "var " ++ ident ++ lit "=" ++ text];
-     hoists := hoists st ++ [(ident, e)] |}.
+     hoists := hoists st ++ [(ident, e)]; hoists_js := hoists_js st ++ [(ident, j)] |}.
 Definition gen_private (st : gst) : str * gst :=
-  (36 :: var_name (next_priv st), {| next_priv := next_priv st + 1; stmts := stmts st; hoists := hoists st |}).
+  (36 :: var_name (next_priv st),
+   {| next_priv := next_priv st + 1; stmts := stmts st; hoists := hoists st; hoists_js := hoists_js st |}).
 
-Record gout := { g_val : str; g_pas : option ppath; g_calc : list ppath }.
+(* `g_js` is ghost: the emitted value as a tree (Model/JsAst.v); it never reaches the text *)
+Record gout := { g_val : str; g_pas : option ppath; g_calc : list ppath; g_js : jx }.
 
 Definition end_path (o : gout) : gout :=
   {| g_val := g_val o; g_pas := None;
-     g_calc := g_calc o ++ match g_pas o with Some p => [p] | None => [] end |}.
+     g_calc := g_calc o ++ match g_pas o with Some p => [p] | None => [] end; g_js := g_js o |}.
 
 Definition push_tail (p : option ppath) (t : ptail) : option ppath :=
   match p with Some (PPath h tail) => Some (PPath h (tail ++ [t])) | None => None end.
@@ -319,7 +321,8 @@ Section Gen.
 
   Definition wrapg (allow lvl : N) (r : gst * gout) : gst * gout :=
     let '(st', o) := r in
-    (st', {| g_val := paren_if (allow <? lvl) (g_val o); g_pas := g_pas o; g_calc := g_calc o |}).
+    (st', {| g_val := paren_if (allow <? lvl) (g_val o); g_pas := g_pas o; g_calc := g_calc o;
+             g_js := if allow <? lvl then JParen (g_js o) else g_js o |}).
 
   (* to_proc_gen_rec without the outer parenthesisation decision; a child printed at a position
      that allows level `allow` is `wrapg allow (pg_level child) (gen_core child st)`:
@@ -333,72 +336,76 @@ Section Gen.
             | LvScript _ | LvInline _ _ => true
             | LvInvalid | LvVar _ _ => match sv_upt sc with Some _ => true | None => false end
             end in
-          (st, {| g_val := sv_var sc; g_pas := if in_path then Some (PPath (HScope i) []) else None; g_calc := [] |})
-      | EField x => (st, {| g_val := lit "D." ++ x; g_pas := Some (PPath (HIdent x) []); g_calc := [] |})
+          (st, {| g_val := sv_var sc; g_pas := if in_path then Some (PPath (HScope i) []) else None; g_calc := [];
+                   g_js := JScope i (sv_var sc) |})
+      | EField x => (st, {| g_val := lit "D." ++ x; g_pas := Some (PPath (HIdent x) []); g_calc := []; g_js := JData x |})
       | EToStr v =>
           let '(st1, o1) := wrapg L_Cond (pg_level v) (gen_core v st) in
           let o1 := end_path o1 in
-          (st1, {| g_val := lit "Y(" ++ g_val o1 ++ lit ")"; g_pas := None; g_calc := g_calc o1 |})
-      | EUndef => (st, {| g_val := lit "undefined"; g_pas := None; g_calc := [] |})
-      | ENull => (st, {| g_val := lit "null"; g_pas := None; g_calc := [] |})
-      | EStr s => (st, {| g_val := lit_str s; g_pas := None; g_calc := [] |})
-      | EInt z => (st, {| g_val := z_to_str z; g_pas := None; g_calc := [] |})
-      | EFloat t => (st, {| g_val := if str_eqb t (lit "inf") then lit "Infinity" else t; g_pas := None; g_calc := [] |})
-      | EBool b => (st, {| g_val := if b then lit "true" else lit "false"; g_pas := None; g_calc := [] |})
+          (st1, {| g_val := lit "Y(" ++ g_val o1 ++ lit ")"; g_pas := None; g_calc := g_calc o1; g_js := JToStr (g_js o1) |})
+      | EUndef => (st, {| g_val := lit "undefined"; g_pas := None; g_calc := []; g_js := JUndef |})
+      | ENull => (st, {| g_val := lit "null"; g_pas := None; g_calc := []; g_js := JNull |})
+      | EStr s => (st, {| g_val := lit_str s; g_pas := None; g_calc := []; g_js := JStr s |})
+      | EInt z => (st, {| g_val := z_to_str z; g_pas := None; g_calc := []; g_js := JInt z |})
+      | EFloat t => (st, {| g_val := if str_eqb t (lit "inf") then lit "Infinity" else t; g_pas := None; g_calc := []; g_js := JFloat t |})
+      | EBool b => (st, {| g_val := if b then lit "true" else lit "false"; g_pas := None; g_calc := []; g_js := JBool b |})
       | EObj fs =>
           let '(st1, s, need_assign, subs) := gen_obj fs st [] false false [] in
-          (st1, {| g_val := if need_assign then lit "Object.assign({" ++ s ++ lit "})" else lit "{" ++ s ++ lit "}";
-                   g_pas := Some (PPath (HObj subs) []); g_calc := [] |})
+          let v := if need_assign then lit "Object.assign({" ++ s ++ lit "})" else lit "{" ++ s ++ lit "}" in
+          (st1, {| g_val := v; g_pas := Some (PPath (HObj subs) []); g_calc := []; g_js := JOpaque L_Member v |})
       | EArr fs =>
           let '(st1, s, need_concat, items, spread) := gen_arr fs st [] false false [] [] in
-          (st1, {| g_val := if need_concat then lit "[].concat([" ++ s ++ lit "])" else lit "[" ++ s ++ lit "]";
-                   g_pas := Some (PPath (HArr items spread) []); g_calc := [] |})
+          let v := if need_concat then lit "[].concat([" ++ s ++ lit "])" else lit "[" ++ s ++ lit "]" in
+          (st1, {| g_val := v; g_pas := Some (PPath (HArr items spread) []); g_calc := []; g_js := JOpaque L_Member v |})
       | EMember o k =>
           let '(st1, o1) := wrapg L_Cond (pg_level o) (gen_core o st) in
           (st1, {| g_val := lit "X(" ++ g_val o1 ++ lit ")." ++ k;
-                   g_pas := push_tail (g_pas o1) (TStatic k); g_calc := g_calc o1 |})
+                   g_pas := push_tail (g_pas o1) (TStatic k); g_calc := g_calc o1; g_js := JMember (g_js o1) k |})
       | EIndex o k =>
           let '(ident, st0) := gen_private st in
           let '(st1, ok) := wrapg L_Cond (pg_level k) (gen_core k st0) in
           let ok := end_path ok in
-          let st2 := emit_hoist st1 ident k (g_val ok) in
+          let st2 := emit_hoist st1 ident k (g_val ok) (g_js ok) in
           let '(st3, oo) := wrapg L_Cond (pg_level o) (gen_core o st2) in
           (st3, {| g_val := lit "X(" ++ g_val oo ++ lit ")[" ++ ident ++ lit "]";
-                   g_pas := push_tail (g_pas oo) (TIndirect ident); g_calc := g_calc ok ++ g_calc oo |})
+                   g_pas := push_tail (g_pas oo) (TIndirect ident); g_calc := g_calc ok ++ g_calc oo;
+                   g_js := JIndex (g_js oo) ident |})
       | ECall f args =>
           let '(st1, of) := wrapg L_Cond (pg_level f) (gen_core f st) in
           let of := end_path of in
           let '(st2, s, calc) := gen_args args st1 true in
-          (st2, {| g_val := lit "P(" ++ g_val of ++ lit ")(" ++ s ++ lit ")"; g_pas := None; g_calc := g_calc of ++ calc |})
+          let v := lit "P(" ++ g_val of ++ lit ")(" ++ s ++ lit ")" in
+          (st2, {| g_val := v; g_pas := None; g_calc := g_calc of ++ calc; g_js := JOpaque L_Member v |})
       | EUn op v =>
           let '(st1, o1) := wrapg L_Unary (pg_level v) (gen_core v st) in
           let o1 := end_path o1 in
-          (st1, {| g_val := unop_text op ++ g_val o1; g_pas := None; g_calc := g_calc o1 |})
+          (st1, {| g_val := unop_text op ++ g_val o1; g_pas := None; g_calc := g_calc o1; g_js := JUn op (g_js o1) |})
       | EBin BNullish l r =>
           let '(ident, st0) := gen_private st in
           let '(st1, ol) := wrapg L_Cond (pg_level l) (gen_core l st0) in
           let ol := end_path ol in
-          let st2 := emit_hoist st1 ident l (g_val ol) in
+          let st2 := emit_hoist st1 ident l (g_val ol) (g_js ol) in
           let '(st3, or) := wrapg L_Cond (pg_level r) (gen_core r st2) in
           let or := end_path or in
           (st3, {| g_val := ident ++ lit "!=null?" ++ ident ++ lit ":" ++ g_val or; g_pas := None;
-                   g_calc := g_calc ol ++ g_calc or |})
+                   g_calc := g_calc ol ++ g_calc or; g_js := JNullishVar ident (g_js or) |})
       | EBin op l r =>
           let '(st1, ol) := wrapg (binop_left_allow op) (pg_level l) (gen_core l st) in
           let ol := end_path ol in
           let '(st2, or) := wrapg (binop_right_allow op) (pg_level r) (gen_core r st1) in
           let or := end_path or in
-          (st2, {| g_val := g_val ol ++ binop_text op ++ g_val or; g_pas := None; g_calc := g_calc ol ++ g_calc or |})
+          (st2, {| g_val := g_val ol ++ binop_text op ++ g_val or; g_pas := None; g_calc := g_calc ol ++ g_calc or;
+                   g_js := JBin op (g_js ol) (g_js or) |})
       | ECond c t f =>
           let '(ident, st0) := gen_private st in
           let '(st1, oc) := wrapg L_Cond (pg_level c) (gen_core c st0) in
           let oc := end_path oc in
-          let st2 := emit_hoist st1 ident c (g_val oc) in
+          let st2 := emit_hoist st1 ident c (g_val oc) (g_js oc) in
           let '(st3, ot) := wrapg L_Cond (pg_level t) (gen_core t st2) in
           let '(st4, of) := wrapg L_Cond (pg_level f) (gen_core f st3) in
           (st4, {| g_val := ident ++ lit "?" ++ g_val ot ++ lit ":" ++ g_val of;
                    g_pas := Some (PPath (HCond ident (PRes (g_pas ot) (g_calc ot)) (PRes (g_pas of) (g_calc of))) []);
-                   g_calc := g_calc oc |})
+                   g_calc := g_calc oc; g_js := JCondVar ident (g_js ot) (g_js of) |})
       end
 
   with gen_args (l : exprs) (st : gst) (first : bool) {struct l} : gst * str * list ppath :=
